@@ -18,7 +18,7 @@ Record Inv (c : config) (m : smap) (a : astate) : Prop := {
                         s_edges sc = (if leaf t then h_par h else []) /\ s_lim sc = a_limit c a t;
   I_present : forall t h, hget (holders a) t = Some h -> h_dead h = false ->
               (forall p, In p (a_par a t) -> get m p <> None) /\
-              (forall o, In o (h_chain h) -> is_handle o = false -> get m o <> None);
+              (forall o, hd_error (h_chain h) = Some o -> is_handle o = false -> get m o <> None);
   I_garbage : forall t sc, get m t = Some sc -> is_handle t = true -> hget (holders a) t = None ->
               s_done sc = true /\ s_use sc = stat0;
   I_num : forall t, use_of m t = usage_A a t
@@ -83,7 +83,7 @@ Proof.
     { destruct (chain_cases a t (I_wf c m a I)) as [X|(o' & X & _)]; [rewrite X in E; discriminate | exact X]. }
     destruct (W_span a (I_wf c m a I) t h G Hs) as (o' & E' & Kn & _).
     rewrite Ec in E'. inversion E'; subst o'. apply Kn, Ho.
-  - destruct (I_present c m a I t h G Dh) as [_ P]. apply P; [rewrite Ec; left; reflexivity | exact Ho].
+  - destruct (I_present c m a I t h G Dh) as [_ P]. apply P; [rewrite Ec; reflexivity | exact Ho].
 Qed.
 
 (* scopes reached by a release = what the holder is charged to *)
